@@ -153,6 +153,10 @@ func runC10(c *core.Ctx) {
 		c10Skel(c, root)
 		c10Keep(c, root)
 		c10ProbeRules(c, root)
+		// per-group results of eval/where/stateCount rest on the per-group copies of their expressions (round 5)
+		ruleCopyReset(c, "C10.copyreset")
+		c.Rule("C10.exprs", "A6 (= C06.exprs): a field of a grouped node that holds stateful.Expression values is used only as the receiver of CopyReset(), in len() or in a nil test — never evaluated or passed on")
+		c.As("C06.exprs", "C10.exprs", func() { c06Exprs(c, root) })
 	}
 }
 
